@@ -228,9 +228,11 @@ PROPS = {
                    f"{BMGR}._check_request#one_group", f"{BMGR}._check_request#two_groups",
                    f"{ALGO}:_aggregate_battery_power_bounds#n1", f"{ALGO}:_aggregate_battery_power_bounds#n2",
                    f"{ALGO}:_aggregate_battery_power_bounds#n3", f"{ALGO}:AggregatedBatteryData.__init__",
-                   f"{BPM}:PowerBoundsCalculator.calculate"],
+                   f"{BPM}:PowerBoundsCalculator.calculate", f"{BPM}:PowerBoundsCalculator.inverter_metrics",
+                   f"{BPM}:PowerBoundsCalculator.battery_metrics"],
         lemmas=["advertised_power_covers_every_group_minimum"],
-        bounded=[],
+        bounded=[dict(kind="native_script", name="same readings on both sides: the real metric fetchers hand every finite reading on "
+                                                 "unchanged (non-integer bounds included)", module="native.explore_pool_fetcher")],
         level="proof",
         explanation="For symbolic (real-valued) bounds data: BatteryManager._get_bounds returns the documented closed forms, its "
                     "inclusion bounds are identical to the advertised ones and its exclusion zone lies inside the advertised one; "
